@@ -8,6 +8,10 @@
 //     F <flag>        format again with the formatter of that mode: one more record in the output
 // ONE JsonFormatter object per mode serves the whole run (as JsonFormatter::instance() / formatToJson() do in
 // an application): a record must not depend on what the same formatter object formatted before
+// argv "via=<seq>" (round 8): the formatter OBJECTS are obtained through the front ends, in this order, before the first
+//   record: '0' = SimplePipeline().formatToJson(false), '1' = SimplePipeline().formatToJson(true), 'i' = JsonFormatter::instance()
+//   (a request for the indented default formatter).  A record of mode f is then formatted by the LAST object requested for
+//   mode f (by passing a copy of the message through that pipeline); modes never requested use the directly constructed objects.
 // argv[1] = "latin1": QTextCodec::setCodecForLocale(ISO-8859-1) first (the formatter's QString result
 //   must not depend on the locale codec)
 // output line: <hex of time().toString(Qt::ISODateWithMs)> <threadId> <hex of format()> [<hex of later records>...]
@@ -61,11 +65,40 @@ static QVariantHash hash_of(std::istringstream &is)
     for (int i = 0; i < n; i++) { std::string k; is >> k; QVariant v = val(is); h.insert(unhex(k), v); }
     return h;
 }
+#include <memory>
+#include <vector>
+struct Front {
+    std::unique_ptr<SimplePipeline> pipe; JsonFormatterPtr inst; QString *slot;
+    QString format(const LogMessage &m)
+    {
+        if (inst) return inst->format(m);
+        LogMessage copy(m);
+        *slot = QString();
+        pipe->process(copy);
+        return *slot;
+    }
+};
 int main(int argc, char **argv)
 {
-    if (argc > 1 && std::string(argv[1]) == "latin1")
-        QTextCodec::setCodecForLocale(QTextCodec::codecForName("ISO-8859-1"));
+    std::string via;
+    for (int a = 1; a < argc; a++) {
+        if (std::string(argv[a]) == "latin1") QTextCodec::setCodecForLocale(QTextCodec::codecForName("ISO-8859-1"));
+        else if (std::string(argv[a]).rfind("via=", 0) == 0) via = std::string(argv[a]).substr(4);
+    }
     std::string line;
+    static QString captured;
+    std::vector<Front> fronts; int front_of[2] = { -1, -1 };
+    for (char ch : via) {
+        Front f; f.slot = &captured;
+        if (ch == 'i') f.inst = JsonFormatter::instance();
+        else {
+            f.pipe.reset(new SimplePipeline());
+            f.pipe->formatToJson(ch == '1');
+            f.pipe->handler([](LogMessage &lm) { captured = lm.formattedMessage(); return true; });
+        }
+        fronts.push_back(std::move(f));
+        front_of[ch == '1' ? 1 : 0] = int(fronts.size()) - 1;
+    }
     JsonFormatter indented(false), compact(true);
     {   // warm-up: both formatter objects have already been used in this process
         QMessageLogContext wctx("w.cpp", 1, "void w()", "warm");
@@ -82,8 +115,12 @@ int main(int argc, char **argv)
         LogMessage m((QtMsgType)type, ctx, unhex(msg));
         if (fmt != "0") m.setFormattedMessage(unhex(fmt));
         for (int i = 0; i < na; i++) { std::string k; is >> k; QVariant v = val(is); m.setAttribute(unhex(k), v); }
-        JsonFormatter &jf = flag != 0 ? compact : indented;
-        std::cout << hex(m.time().toString(Qt::ISODateWithMs)) << " " << m.threadId() << " " << hex(jf.format(m));
+        auto fmt_mode = [&](int f, const LogMessage &lm) -> QString {
+            int k = front_of[f != 0 ? 1 : 0];
+            if (k >= 0) return fronts[size_t(k)].format(lm);
+            return (f != 0 ? compact : indented).format(lm);
+        };
+        std::cout << hex(m.time().toString(Qt::ISODateWithMs)) << " " << m.threadId() << " " << hex(fmt_mode(flag, m));
         std::string tok;
         if (is >> tok && tok == "|") {
             while (is >> tok) {
@@ -91,7 +128,7 @@ int main(int argc, char **argv)
                 else if (tok == "U") m.updateAttributes(hash_of(is));
                 else if (tok == "A") { std::string k; is >> k; QVariant v = val(is); m.setAttribute(unhex(k), v); }
                 else if (tok == "R") { std::string k; is >> k; m.removeAttribute(unhex(k)); }
-                else if (tok == "F") { int f2; is >> f2; JsonFormatter &again = f2 != 0 ? compact : indented; std::cout << " " << hex(again.format(m)); }
+                else if (tok == "F") { int f2; is >> f2; std::cout << " " << hex(fmt_mode(f2, m)); }
             }
         }
         std::cout << "\n";
